@@ -263,6 +263,10 @@ def evaluate__function_reference(self: XPathToken, context: ta.ContextType = Non
         # Generic rule for XSD constructor functions
         if namespace == ns.XSD_NAMESPACE and arity != 1:
             raise self.error('XPST0017', f"unknown function {qname.qname}#{arity}")
+        elif namespace == ns.XSD_NAMESPACE and (
+                local_name == 'NOTATION' or
+                local_name == 'dateTimeStamp' and self.parser.xsd_version == '1.0'):
+            raise self.error('XPST0017', f"unknown function {qname.qname}#{arity}")
 
         # Special checks for multirole tokens
         if namespace == ns.XPATH_FUNCTIONS_NAMESPACE and \
